@@ -994,14 +994,24 @@ def gen_hostzone(rng, index):
     zones = [list(z) for z in trace["zones"]]
     zones[0] = [west, west, 0]
     steps = []
+    dst_rule = index % 4 == 3
+    if dst_rule:
+        # a zone that defines daylight saving (standard +01:00, daylight
+        # +02:00, in effect February to November): the library is imported
+        # under a definition with altzone != timezone, and the flag then
+        # flips while the definition stays the same
+        zones[0] = [-3600, -7200, 1]
     for i, step in enumerate(trace["steps"]):
         steps.append(step)
         if i % 7 == 6:
             steps.append({"k": "pert", "act": ["tzset", 0]})
-            steps.append({"k": "pert", "act": ["dst", 0]})
+            steps.append({"k": "pert", "act": [
+                "dst", (i // 7) % 2 if dst_rule else 0]})
     trace.update(kind="hostzone", zones=zones, cur=0, isdst=0,
                  host_tz=kernel.posix_tz(
                      west, ["XST", "UTC", "GMT"][index % 3]), steps=steps)
+    if dst_rule:
+        trace.update(host_tz="XST-1XDT-2,J32/0,J334/0", host_dst_rule=True)
     return trace
 
 
